@@ -333,8 +333,9 @@ class _Threader:
             return len(self.blocks) - 1
         # blocks between the assignment and the test are copied along when they only drop values and set
         # drop flags (constant stores to whole locals)
-        # (.. and read discriminants into temporaries: the drop elaboration's `_n = discriminant(_m)`)
-        if any(not (s_["s"] == "assign" and not s_["pl"]["p"] and ((s_["rv"]["r"] == "use" and (s_["rv"]["o"].get("k") is not None or _whole_local(s_["rv"]["o"]) is not None)) or s_["rv"]["r"] == "discr" or (s_["rv"]["r"] == "agg" and s_["rv"].get("kind") == "adt" and "variant_idx" in s_["rv"] and len(s_["rv"]["fields"]) <= 1))) for s_ in blk["st"]):
+        # (.. and read discriminants into temporaries: the drop elaboration's `_n = discriminant(_m)`; and negate a
+        # bool: the `!` of `!matches!(..)` / `!helper()` between the arms that produce the constant and its test)
+        if any(not (s_["s"] == "assign" and not s_["pl"]["p"] and ((s_["rv"]["r"] == "use" and (s_["rv"]["o"].get("k") is not None or _whole_local(s_["rv"]["o"]) is not None)) or s_["rv"]["r"] == "discr" or (s_["rv"]["r"] == "un" and s_["rv"].get("op") == "Not" and (s_["rv"]["a"].get("k") is not None or _whole_local(s_["rv"]["a"]) is not None)) or (s_["rv"]["r"] == "agg" and s_["rv"].get("kind") == "adt" and "variant_idx" in s_["rv"] and len(s_["rv"]["fields"]) <= 1))) for s_ in blk["st"]):
             return n
         known = flow_statements(blk, dict(known), self.untracked)
         if k == "goto":
